@@ -1,5 +1,5 @@
 """C01 — conversion accepts exactly the members of the type and returns the exactly-typed image."""
-from .. import env, model, genval, gentypes
+from .. import entrypoints, env, model, genval, gentypes
 from ..common import observe, same_outcome, build_type
 from ..ctx import short
 from ..deepeq import deep_typed_eq
@@ -131,6 +131,10 @@ def run(ctx):
                 out = check_case(ctx, 'main', i, ty, T, v, cls_)
                 if len(deferred) < 400 and rng.random() < 0.3:
                     deferred.append((i, ty, v, out))
+                if out is not None and out.kind != 'escape' and rng.random() < 0.25:
+                    # verdict and value depend on T and v only - not on which door v came through (a Converter used directly, the
+                    # dataclass classmethods, the readers fed the same document as text)
+                    entrypoints.check_parse_agreement(ctx, 'model-vs-pane', 'main', i, T, v, out, describe(ty), is_dc=ty.k == 'dc')
                 if out is not None and out.kind == 'value' and rng.random() < 0.5:
                     # straight after an accepted value, through the SAME type object (and so the same converter): its twin of another
                     # kind (1 -> 1.0 -> True ...), which compares and hashes equal to it - a per-converter memo keyed by the raw value
